@@ -1533,3 +1533,85 @@ mut(
     "                            if required is True and default is None\n",
     expect="ok",
 )
+
+CSTU = "cdd/shared/cst_utils.py"
+mut(
+    "c09-scanner-hops-between-newlines-with-find",
+    "C09",
+    "C09.bounds",
+    CSTU,
+    "    for idx, ch in enumerate(source):\n        if ch == \"\\n\":  # in frozenset((\"\\n\", \":\", \";\", '\"\"\"', \"'''\", '#')):\n            cst_scan(scanned, stack)\n        stack.append(ch)\n",
+    "    pos = 0\n    while True:\n        nl = source.find(\"\\n\", pos)\n        stack.extend(source[pos:nl])\n        if nl == -1:\n            break\n        cst_scan(scanned, stack)\n        stack.append(\"\\n\")\n        pos = nl + 1\n",
+    mention=("source[pos:nl]",),
+)
+mut(
+    "c06-guard-reads-renamed-key",
+    "C06",
+    "C06.stale",
+    JE,
+    "    if isinstance(_param.get(\"choices\"), Set):\n",
+    "    if isinstance(_param.get(\"default\"), str) and _param.get(\"typ\") != \"str\":\n        _param[\"default\"] = _param[\"default\"].strip()\n    if isinstance(_param.get(\"choices\"), Set):\n",
+    mention=("'typ'",),
+)
+mut(
+    "c06-guard-reads-new-key",  # the same guard on the key that exists: must NOT be reported
+    "C06",
+    "C06.stale",
+    JE,
+    "    if isinstance(_param.get(\"choices\"), Set):\n",
+    "    if isinstance(_param.get(\"default\"), str) and _param.get(\"type\") != \"string\":\n        _param[\"default\"] = _param[\"default\"].strip()\n    if isinstance(_param.get(\"choices\"), Set):\n",
+    expect="ok",
+)
+mut(
+    "c05-optional-depends-on-default",
+    "C05",
+    "C05.optional",
+    "cdd/sqlalchemy/utils/parse_utils.py",
+    "        not _param[\"nullable\"] or _handle_null()\n",
+    "        not _param[\"nullable\"] or \"default\" in _param or _handle_null()\n",
+    mention=("default",),
+)
+mut(
+    "c12-truth-file-skipped-by-name-only",
+    "C12",
+    "C12.targets",
+    CF,
+    "                lambda filename: _conform_filename(\n                    filename=filename,\n                    search=search,\n                    emit_func=partial(emit_func, word_wrap=args.no_word_wrap is None),\n                    replacement_node_ir=gold_ir,\n                    type_wanted=type_wanted,\n                ),\n",
+    "                lambda filename: (truth_file, False) if filename == truth_file else _conform_filename(\n                    filename=filename,\n                    search=search,\n                    emit_func=partial(emit_func, word_wrap=args.no_word_wrap is None),\n                    replacement_node_ir=gold_ir,\n                    type_wanted=type_wanted,\n                ),\n",
+    mention=("skipped",),
+)
+mut(
+    "c12-truth-target-skipped-kind-aware",  # skipping exactly (truth kind, truth file) is harmless: must NOT be reported
+    "C12",
+    "C12.targets",
+    CF,
+    "                lambda filename: _conform_filename(\n                    filename=filename,\n                    search=search,\n                    emit_func=partial(emit_func, word_wrap=args.no_word_wrap is None),\n                    replacement_node_ir=gold_ir,\n                    type_wanted=type_wanted,\n                ),\n",
+    "                lambda filename: (truth_file, False) if (fun_name == args.truth and filename == truth_file) else _conform_filename(\n                    filename=filename,\n                    search=search,\n                    emit_func=partial(emit_func, word_wrap=args.no_word_wrap is None),\n                    replacement_node_ir=gold_ir,\n                    type_wanted=type_wanted,\n                ),\n",
+    expect="ok",
+)
+mut(
+    "c07-write-in-place-then-truncate",
+    "C07",
+    "C07.write",
+    "cdd/compound/doctrans.py",
+    "        with open(filename, \"wt\") as f:\n            f.write(\"\".join(map(attrgetter(\"value\"), cst_list)))\n",
+    "        with open(filename, \"r+t\") as f:\n            f.write(\"\".join(map(attrgetter(\"value\"), cst_list)))\n            f.truncate()\n",
+    mention=("r+t",),
+)
+mut(
+    "c02-help-percent-escaped-on-emit-only",
+    "C02",
+    "C02.escape",
+    AU,
+    "                                value=set_value((fill if word_wrap else identity)(doc)),\n",
+    "                                value=set_value((fill if word_wrap else identity)(doc.replace(\"%\", \"%%\"))),\n",
+)
+mut(
+    "c13-evaluated-namespace-cached-per-file",
+    "C13",
+    "C13.state",
+    SP,
+    "def sync_property(\n",
+    "_EVALUATED = {}\n\n\ndef _remember(filename, namespace):\n    \"\"\"cache\"\"\"\n    _EVALUATED[filename] = namespace\n    return namespace\n\n\ndef sync_property(\n",
+    expect="ok",
+)
